@@ -10,14 +10,16 @@ open PgVerif.Spec.Wal (encRecHeader encBody encRecord pad8 Trailer pageHdrBytes 
 
 /-! ## The operational layout (Spec/WalLayout.lean): every page it emits is parsed back to what it placed -/
 
-/-- what the tool reports for a placed record -/
-def placedM : Placed → Option Record
-  | .whole lsn r => some (recM lsn r (viewsM none r.blocks))
-  | .cut lsn r => some (recM lsn r [])
-  | .straddle _ _ => none
+/-- what the tool reports for a placed record, however it was placed -/
+def placedM (p : Placed) : Record := recM p.lsn p.record (viewsM none p.record.blocks)
 
 theorem zeros_isPadding (n : Nat) : ((zeros n).take 8).all (· == 0) = true := by
   simp [zeros, List.take_replicate]
+
+/-- the carry of a filled page is what the trailer leaves of its record -/
+def CarryOK (carry : Bytes) : Trailer → Prop
+  | .cut r n => carry = (encRecord r).drop n
+  | .zeros _ => carry = []
 
 structure FillOK (addr p : Nat) (f : PageFill) : Prop where
   len : ((f.whole.flatMap fun r => pad8 (encRecord r)) ++ f.trailer.bytes).length = 8192 - p
@@ -25,18 +27,15 @@ structure FillOK (addr p : Nat) (f : PageFill) : Prop where
   whole : ∀ r ∈ f.whole, r.WF
   rest : ∀ r ∈ f.rest, r.WF
   carry : f.carry.length ≤ 16000
-  recs : addr + 8192 ≤ 2 ^ 64 → loopRecs addr p f.whole f.trailer = f.placed.filterMap placedM
+  cont : CarryOK f.carry f.trailer
+  recs : addr + 8192 ≤ 2 ^ 64 → loopRecs addr p f.whole f.trailer = f.placed.map placedM
 
 theorem fillPage_ok (addr : Nat) (rs : List Spec.Wal.WalRecord) (hrs : ∀ r ∈ rs, r.WF) (p : Nat) (hp : p ≤ 8192)
     (hp8 : p % 8 = 0) : FillOK addr p (fillPage addr p rs) := by
   induction rs generalizing p with
   | nil =>
     unfold fillPage
-    by_cases h : 8192 - p < 24
-    · simp only [h, if_true]
-      exact ⟨by simp [Trailer.bytes], by simpa [Trailer.WF] using h, by simp, by simp, by simp, fun _ => rfl⟩
-    · simp only [h, if_false]
-      exact ⟨by simp [Trailer.bytes], zeros_isPadding _, by simp, by simp, by simp, fun _ => rfl⟩
+    exact ⟨by simp [Trailer.bytes], zeros_isPadding _, by simp, by simp, by simp, rfl, fun _ => rfl⟩
   | cons r rs ih =>
     have hr := hrs r (by simp)
     have h24 := totLen_ge r
@@ -47,35 +46,50 @@ theorem fillPage_ok (addr : Nat) (rs : List Spec.Wal.WalRecord) (hrs : ∀ r ∈
     · simp only [h1, if_true]
       have hA : 24 ≤ Spec.Wal.align8 r.totLen := by simp only [Spec.Wal.align8]; omega
       have hA8 : Spec.Wal.align8 r.totLen % 8 = 0 := by simp only [Spec.Wal.align8]; omega
-      obtain ⟨l, t, w, rst, c, rc⟩ := ih (fun r' h' => hrs r' (by simp [h'])) (p + Spec.Wal.align8 r.totLen) h1 (by omega)
+      obtain ⟨l, t, w, rst, c, ct, rc⟩ := ih (fun r' h' => hrs r' (by simp [h'])) (p + Spec.Wal.align8 r.totLen) h1 (by omega)
       have hpl := pad8_length (encRecord r)
       rw [hlen] at hpl
-      refine ⟨?_, t, ?_, rst, c, ?_⟩
+      refine ⟨?_, t, ?_, rst, c, ct, ?_⟩
       · simp only [List.flatMap_cons, List.append_assoc, List.length_append, hpl] at l ⊢; omega
       · intro r' h'; rcases List.mem_cons.mp h' with rfl | h'
         · exact hr
         · exact w r' h'
       · intro haddr
-        simp only [loopRecs, List.filterMap_cons, placedM, rc haddr]
+        simp only [loopRecs, List.map_cons, placedM, Placed.lsn, Placed.record, rc haddr]
         rw [Nat.mod_eq_of_lt (by omega)]
     · simp only [h1, if_false]
       by_cases h2 : p ≥ 8192
       · simp only [h2, if_true]
-        exact ⟨by simp [Trailer.bytes]; omega, by simp [Trailer.WF], by simp, hrs, by simp, fun _ => rfl⟩
+        exact ⟨by simp [Trailer.bytes]; omega, by simp [Trailer.WF], by simp, hrs, by simp, rfl, fun _ => rfl⟩
       · simp only [h2, if_false]
         have hn : 8192 - p < r.totLen := by simp only [Spec.Wal.align8] at h1; omega
+        refine ⟨by simp [Trailer.bytes, hlen]; omega, ⟨hr, by omega, hn⟩, by simp, fun r' h' => hrs r' (by simp [h']),
+          by simp [hlen]; omega, rfl, ?_⟩
+        intro haddr
+        simp only [loopRecs, List.map_cons, List.map_nil, placedM]
+        rw [Nat.mod_eq_of_lt (by omega)]
         by_cases h3 : 8192 - p ≥ 24
-        · simp only [h3, if_true]
-          refine ⟨by simp [Trailer.bytes, hlen]; omega, ⟨hr, h3, hn⟩, by simp, fun r' h' => hrs r' (by simp [h']),
-            by simp [hlen]; omega, ?_⟩
-          intro haddr
-          simp only [loopRecs, List.filterMap_cons, List.filterMap_nil, placedM]
-          rw [Nat.mod_eq_of_lt (by omega)]
-        · simp only [h3, if_false]
-          refine ⟨by simp [Trailer.bytes, hlen]; omega, ?_, by simp, fun r' h' => hrs r' (by simp [h']),
-            by simp [hlen]; omega, fun _ => rfl⟩
-          show ((encRecord r).take (8192 - p)).length < 24
-          simp [hlen]; omega
+        · rw [if_pos h3]; rfl
+        · rw [if_neg h3]; rfl
+
+/-- when the following pages carry the carry of a filled page, they complete its cut record -/
+theorem contOK_of_fill (addr p : Nat) (f : PageFill) (hf : FillOK addr p f) (fol : Bytes)
+    (h : f.carry ≠ [] → continuationData fol f.carry.length = .ok (some f.carry)) : ContOK fol f.trailer := by
+  have hc := hf.cont
+  have ht := hf.tr
+  cases htr : f.trailer with
+  | zeros bs => trivial
+  | cut r n =>
+    rw [htr] at hc ht
+    obtain ⟨_, _, hn⟩ := ht
+    have hcl : f.carry.length = r.totLen - n := by
+      rw [show f.carry = (encRecord r).drop n from hc, List.length_drop, encRecord_length]
+    have hne : f.carry ≠ [] := by
+      intro h0; rw [h0] at hcl; simp at hcl; omega
+    have := h hne
+    rw [hcl] at this
+    show continuationData fol (r.totLen - n) = .ok (some ((encRecord r).drop n))
+    rw [this, show f.carry = (encRecord r).drop n from hc]
 
 theorem info_bits : ∀ a b c : Bool,
     (((if a then 1 else 0) + (if b then 2 else 0) + (if c then 4 else 0) : Nat) &&& 0x0001 != 0) = a ∧
@@ -103,21 +117,22 @@ structure SegOK (s : Spec.Wal.WalSegment) : Prop where
 
 theorem pageRecs_fill (s : Spec.Wal.WalSegment) (hs : SegOK s) (k : Nat) (carry : Bytes) (hc : carry.length < 2 ^ 32)
     (haddr : s.startAddr + 8192 * k + 8192 ≤ 2 ^ 64)
-    (f : PageFill) (hf : FillOK (s.startAddr + 8192 * k) (hdrSize k + Spec.Wal.align8 carry.length) f) :
+    (f : PageFill) (hf : FillOK (s.startAddr + 8192 * k) (hdrSize k + Spec.Wal.align8 carry.length) f) (fol : Bytes)
+    (hfol : f.carry ≠ [] → continuationData fol f.carry.length = .ok (some f.carry)) :
     pageRecs (pageHeader s k carry.length ++ pad8 carry ++
-      ((f.whole.flatMap fun r => pad8 (encRecord r)) ++ f.trailer.bytes)) = f.placed.filterMap placedM := by
+      ((f.whole.flatMap fun r => pad8 (encRecord r)) ++ f.trailer.bytes)) fol = f.placed.map placedM := by
   obtain ⟨b1, b2, b3⟩ := pageInfo_bits s k carry.length
   have hx := longExt_length s k
   unfold pageRecs pageHeader
   rw [parseWALPage_enc s.magic (pageInfo s k carry.length) s.tli (s.startAddr + 8192 * k) carry.length (longExt s k)
-    (pad8 carry) f.whole f.trailer hs.magic (by omega) hs.tli (by omega) hc hs.valid
+    (pad8 carry) f.whole f.trailer fol hs.magic (by omega) hs.tli (by omega) hc hs.valid
     (by rw [b2, hx]; by_cases h0 : k = 0 <;> simp [h0])
     (by rw [b1, pad8_length]
         by_cases h0 : carry.length > 0
         · simp [h0]
         · have : carry.length = 0 := by omega
           simp [this, Spec.Wal.align8])
-    hf.whole hf.tr]
+    hf.whole hf.tr (contOK_of_fill _ _ f hf fol hfol)]
   simp only []
   rw [← hf.recs (by omega), pad8_length, hx]
   congr 1
@@ -126,8 +141,9 @@ theorem pageRecs_fill (s : Spec.Wal.WalSegment) (hs : SegOK s) (k : Nat) (carry 
 
 
 theorem pageRecs_allcont (s : Spec.Wal.WalSegment) (hs : SegOK s) (k : Nat) (carry : Bytes) (hc : carry.length < 2 ^ 32)
-    (hcap : Spec.Wal.align8 carry.length > 8192 - hdrSize k) (haddr : s.startAddr + 8192 * k + 8192 ≤ 2 ^ 64) :
-    pageRecs (pageHeader s k carry.length ++ carry.take (8192 - hdrSize k)) = [] := by
+    (hcap : Spec.Wal.align8 carry.length > 8192 - hdrSize k) (haddr : s.startAddr + 8192 * k + 8192 ≤ 2 ^ 64)
+    (fol : Bytes) :
+    pageRecs (pageHeader s k carry.length ++ carry.take (8192 - hdrSize k)) fol = [] := by
   obtain ⟨b1, b2, b3⟩ := pageInfo_bits s k carry.length
   have hx := longExt_length s k
   have hpos : carry.length > 0 := by
@@ -136,20 +152,189 @@ theorem pageRecs_allcont (s : Spec.Wal.WalSegment) (hs : SegOK s) (k : Nat) (car
     · omega
   unfold pageRecs pageHeader
   rw [parseWALPage_allcont s.magic (pageInfo s k carry.length) s.tli (s.startAddr + 8192 * k) carry.length (longExt s k)
-    _ hs.magic (by omega) hs.tli (by omega) hc hs.valid (by rw [b1]; simp [hpos])
+    _ fol hs.magic (by omega) hs.tli (by omega) hc hs.valid (by rw [b1]; simp [hpos])
     (by rw [b2, hx]; by_cases h0 : k = 0 <;> simp [h0])
     (by rw [List.length_take, hx]; unfold hdrSize at hcap ⊢
+        simp only [Spec.Wal.align8] at hcap ⊢
         by_cases h0 : k = 0 <;> simp only [h0, if_true, if_false] at hcap ⊢ <;> omega)]
 
 theorem mul_succ' (k : Nat) : 8192 * (k + 1) = 8192 * k + 8192 := Nat.mul_succ 8192 k
 
+/-! ## The continuation data of a laid-out record is found again -/
+
+/-- one iteration of continuationData on a page the layout wrote while `need` bytes of a record were still to
+come: the page contributes the first `min capacity need` bytes after its header -/
+theorem contLoop_page (s : Spec.Wal.WalSegment) (hs : SegOK s) (k need : Nat) (body more : Bytes) (fuel : Nat)
+    (hneed : 0 < need) (h32 : need < 2 ^ 32) (haddr : s.startAddr + 8192 * k < 2 ^ 64)
+    (hlen : (pageHeader s k need ++ body).length = 8192) :
+    contLoop (fuel + 1) (pageHeader s k need ++ body ++ more) need =
+      (do match ← contLoop fuel more (need - min (8192 - hdrSize k) need) with
+          | some m => pure (some (body.take (min (8192 - hdrSize k) need) ++ m))
+          | none => pure none) := by
+  obtain ⟨b1, b2, b3⟩ := pageInfo_bits s k need
+  have hx := longExt_length s k
+  have hh := hdr_length s k need
+  have hk : hdrSize k = 24 ∨ hdrSize k = 40 := by unfold hdrSize; by_cases h0 : k = 0 <;> simp [h0]
+  conv => lhs; unfold contLoop
+  rw [if_pos hneed, if_neg (by rw [List.length_append, hlen]; omega)]
+  rw [sliceTo_ok _ 8192 (by rw [List.length_append, hlen]; omega)]
+  simp only [ok_bind]
+  rw [show (pageHeader s k need ++ body ++ more).take 8192 = pageHeader s k need ++ body from List.take_left' hlen]
+  obtain ⟨h, hp, h1, h2, h3, h4⟩ := parsePageHeader_enc s.magic (pageInfo s k need) s.tli (s.startAddr + 8192 * k) need
+    (longExt s k) body hs.magic (by omega) hs.tli haddr h32
+  have hp' : parsePageHeader (pageHeader s k need ++ body) = .ok h := hp
+  rw [hp']
+  simp only [ok_bind]
+  have hbit : (h.info &&& 0x0001 == 0) = false := by
+    rw [h2]
+    have : (pageInfo s k need &&& 0x0001 != 0) = true := by rw [b1]; simpa using hneed
+    simpa [bne] using this
+  have hhs : headerSize h.info = hdrSize k := by
+    unfold headerSize hdrSize
+    rw [h2, b2]
+    by_cases h0 : k = 0 <;> simp [h0]
+  rw [if_neg (by rw [h1, hs.valid, hbit, h4]; simp)]
+  rw [hhs]
+  have hn : (if 8192 - hdrSize k > need then need else 8192 - hdrSize k) = min (8192 - hdrSize k) need := by
+    split <;> omega
+  rw [hn]
+  rw [slice_ok _ _ _ (by rw [hlen]; omega) (by omega), sliceFrom_ok _ 8192 (by rw [List.length_append, hlen]; omega)]
+  simp only [ok_bind]
+  have hchunk : ((pageHeader s k need ++ body).take (hdrSize k + min (8192 - hdrSize k) need)).drop (hdrSize k) =
+      body.take (min (8192 - hdrSize k) need) := by
+    rw [← hh, List.take_length_add_append, List.drop_left' rfl]
+  have hrest : (pageHeader s k need ++ body ++ more).drop 8192 = more := List.drop_left' hlen
+  rw [hchunk, hrest]
+  rfl
+
+theorem contLoop_zero (fuel : Nat) (fol : Bytes) : contLoop fuel fol 0 = .ok (some []) := by
+  cases fuel with
+  | zero => rfl
+  | succ fuel => unfold contLoop; rw [if_neg (by omega)]; rfl
+
+def recsLen (rs : List Spec.Wal.WalRecord) : Nat := (rs.map fun r => Spec.Wal.align8 r.totLen).sum
+
+/-- the pages laid out after a page that ended inside a record give that record's remaining bytes back -/
+theorem contLoop_layout (s : Spec.Wal.WalSegment) (hs : SegOK s) (n k : Nat) (carry : Bytes)
+    (rs : List Spec.Wal.WalRecord) (hc : carry.length < 2 ^ 32) (hne : carry ≠ []) (hrs : ∀ r ∈ rs, r.WF)
+    (hfuel : (Spec.Wal.align8 carry.length + recsLen rs) / 8 < n)
+    (hfit : s.startAddr + 8192 * k + (layoutPages s n k carry rs).bytes.length ≤ 2 ^ 64) (tail : Bytes)
+    (fuel : Nat) (hf : carry.length ≤ fuel) :
+    contLoop fuel ((layoutPages s n k carry rs).bytes ++ tail) carry.length = .ok (some carry) := by
+  induction n generalizing k carry fuel with
+  | zero => omega
+  | succ n ih =>
+    have hpos : 0 < carry.length := by
+      cases carry with
+      | nil => exact absurd rfl hne
+      | cons b t => simp
+    have hh := hdr_length s k carry.length
+    have hk : hdrSize k = 24 ∨ hdrSize k = 40 := by unfold hdrSize; by_cases h0 : k = 0 <;> simp [h0]
+    cases fuel with
+    | zero => omega
+    | succ fuel =>
+      unfold layoutPages at hfit ⊢
+      simp only [] at hfit ⊢
+      by_cases hcap : Spec.Wal.align8 carry.length > 8192 - hdrSize k
+      · rw [if_pos hcap] at hfit ⊢
+        simp only [] at hfit ⊢
+        have hL : 8192 - hdrSize k < carry.length := by simp only [Spec.Wal.align8] at hcap; omega
+        have hplen : (pageHeader s k carry.length ++ carry.take (8192 - hdrSize k)).length = 8192 := by
+          rw [List.length_append, hh, List.length_take]; omega
+        rw [List.length_append, hplen] at hfit
+        rw [List.append_assoc]
+        rw [contLoop_page s hs k carry.length _ _ fuel hpos hc (by omega) hplen]
+        rw [show min (8192 - hdrSize k) carry.length = 8192 - hdrSize k by omega]
+        have hd : carry.length - (8192 - hdrSize k) = (carry.drop (8192 - hdrSize k)).length := by
+          rw [List.length_drop]
+        rw [hd, ih (k + 1) (carry.drop (8192 - hdrSize k)) (by rw [List.length_drop]; omega)
+          (by intro h0; have := congrArg List.length h0; rw [List.length_drop] at this; simp at this; omega)
+          (by rw [List.length_drop]; simp only [Spec.Wal.align8] at hcap hfuel ⊢; omega)
+          (by rw [mul_succ']; omega) fuel (by rw [List.length_drop]; omega)]
+        simp only [ok_bind, pure_eq_ok]
+        rw [List.take_take, Nat.min_self, List.take_append_drop]
+      · rw [if_neg hcap] at hfit ⊢
+        have hfp := fillPage_ok (s.startAddr + 8192 * k) rs hrs (hdrSize k + Spec.Wal.align8 carry.length) (by omega)
+          (by simp only [Spec.Wal.align8]; omega)
+        have hplen : (pageHeader s k carry.length ++ (pad8 carry ++
+            (((fillPage (s.startAddr + 8192 * k) (hdrSize k + Spec.Wal.align8 carry.length) rs).whole.flatMap fun r => pad8 (encRecord r)) ++
+              (fillPage (s.startAddr + 8192 * k) (hdrSize k + Spec.Wal.align8 carry.length) rs).trailer.bytes))).length = 8192 := by
+          rw [List.length_append, List.length_append, hh, pad8_length, hfp.len]; omega
+        have hA : carry.length ≤ 8192 - hdrSize k := by simp only [Spec.Wal.align8] at hcap; omega
+        have hbody : (pad8 carry ++
+            (((fillPage (s.startAddr + 8192 * k) (hdrSize k + Spec.Wal.align8 carry.length) rs).whole.flatMap fun r => pad8 (encRecord r)) ++
+              (fillPage (s.startAddr + 8192 * k) (hdrSize k + Spec.Wal.align8 carry.length) rs).trailer.bytes)).take carry.length = carry := by
+          rw [pad8, List.append_assoc, List.take_left' rfl]
+        have haddr : s.startAddr + 8192 * k < 2 ^ 64 := by
+          split at hfit <;> simp only [List.length_append] at hfit <;> omega
+        have key : ∀ more, contLoop (fuel + 1) (pageHeader s k carry.length ++ (pad8 carry ++
+            (((fillPage (s.startAddr + 8192 * k) (hdrSize k + Spec.Wal.align8 carry.length) rs).whole.flatMap fun r => pad8 (encRecord r)) ++
+              ((fillPage (s.startAddr + 8192 * k) (hdrSize k + Spec.Wal.align8 carry.length) rs).trailer.bytes ++ more)))) carry.length =
+              .ok (some carry) := by
+          intro more
+          have := contLoop_page s hs k carry.length _ more fuel hpos hc haddr hplen
+          simp only [List.append_assoc] at this
+          rw [this]
+          rw [show min (8192 - hdrSize k) carry.length = carry.length by omega, Nat.sub_self, contLoop_zero]
+          simp only [ok_bind, pure_eq_ok, hbody, List.append_nil]
+        split
+        · simp only [List.append_assoc]
+          exact key _
+        · simp only [List.append_assoc]
+          exact key _
+
+theorem continuationData_layout (s : Spec.Wal.WalSegment) (hs : SegOK s) (n k : Nat) (carry : Bytes)
+    (rs : List Spec.Wal.WalRecord) (hc : carry.length < 2 ^ 32) (hne : carry ≠ []) (hrs : ∀ r ∈ rs, r.WF)
+    (hfuel : (Spec.Wal.align8 carry.length + recsLen rs) / 8 < n)
+    (hfit : s.startAddr + 8192 * k + (layoutPages s n k carry rs).bytes.length ≤ 2 ^ 64) (tail : Bytes) :
+    continuationData ((layoutPages s n k carry rs).bytes ++ tail) carry.length = .ok (some carry) := by
+  have hpos : 0 < carry.length := by
+    cases carry with
+    | nil => exact absurd rfl hne
+    | cons b t => simp
+  unfold continuationData
+  rw [if_pos hpos]
+  exact contLoop_layout s hs n k carry rs hc hne hrs hfuel hfit tail _ (Nat.le_refl _)
+
+/-! ## Every page the layout emits is parsed back to what it placed -/
+
+theorem fillPage_carry_fuel (addr : Nat) (rs : List Spec.Wal.WalRecord) (p : Nat) (hp : p ≤ 8192) (hp8 : p % 8 = 0) :
+    ((fillPage addr p rs).carry ≠ [] ∨ (fillPage addr p rs).rest ≠ []) →
+      Spec.Wal.align8 (fillPage addr p rs).carry.length + recsLen (fillPage addr p rs).rest + (8192 - p) = recsLen rs := by
+  induction rs generalizing p with
+  | nil =>
+    unfold fillPage
+    intro h; rcases h with h | h <;> exact absurd rfl h
+  | cons r rs ih =>
+    have h24 := totLen_ge r
+    have hlen := encRecord_length r
+    unfold fillPage
+    by_cases h1 : p + Spec.Wal.align8 r.totLen ≤ 8192
+    · simp only [h1, if_true]
+      have hA8 : Spec.Wal.align8 r.totLen % 8 = 0 := by simp only [Spec.Wal.align8]; omega
+      intro h
+      have := ih (p + Spec.Wal.align8 r.totLen) h1 (by omega) h
+      simp only [recsLen, List.map_cons, List.sum_cons] at this ⊢
+      omega
+    · simp only [h1, if_false]
+      by_cases h2 : p ≥ 8192
+      · simp only [h2, if_true]
+        intro _
+        simp [Spec.Wal.align8]; omega
+      · simp only [h2, if_false]
+        have hn : 8192 - p < r.totLen := by simp only [Spec.Wal.align8] at h1; omega
+        have hcl : ((encRecord r).drop (8192 - p)).length = r.totLen - (8192 - p) := by rw [List.length_drop, hlen]
+        intro _
+        simp only [hcl, recsLen, List.map_cons, List.sum_cons, Spec.Wal.align8]; omega
+
 theorem layoutPages_ok (s : Spec.Wal.WalSegment) (hs : SegOK s) (n : Nat) (k : Nat) (carry : Bytes)
     (rs : List Spec.Wal.WalRecord) (hc : carry.length < 2 ^ 32) (hrs : ∀ r ∈ rs, r.WF)
+    (hfuel : (Spec.Wal.align8 carry.length + recsLen rs) / 8 < n)
     (hfit : s.startAddr + 8192 * k + (layoutPages s n k carry rs).bytes.length ≤ 2 ^ 64) (tail : Bytes) :
     fileRecs ((layoutPages s n k carry rs).bytes ++ tail) =
-      (layoutPages s n k carry rs).placed.filterMap placedM ++ fileRecs tail := by
+      (layoutPages s n k carry rs).placed.map placedM ++ fileRecs tail := by
   induction n generalizing k carry rs with
-  | zero => simp [layoutPages]
+  | zero => omega
   | succ n ih =>
     have hh := hdr_length s k carry.length
     have hk : hdrSize k = 24 ∨ hdrSize k = 40 := by unfold hdrSize; by_cases h0 : k = 0 <;> simp [h0]
@@ -162,12 +347,15 @@ theorem layoutPages_ok (s : Spec.Wal.WalSegment) (hs : SegOK s) (n : Nat) (k : N
       have hplen : (pageHeader s k carry.length ++ carry.take (8192 - hdrSize k)).length = 8192 := by
         rw [List.length_append, hh, List.length_take]; omega
       rw [List.length_append, hplen] at hfit
-      rw [List.append_assoc, fileRecs_append _ _ 1 (by rw [hplen]), fileRecs_page _ hplen,
+      rw [List.append_assoc, fileRecs_cons _ _ hplen,
         pageRecs_allcont s hs k carry hc hcap (by omega), List.nil_append]
       exact ih (k + 1) (carry.drop (8192 - hdrSize k)) rs (by rw [List.length_drop]; omega) hrs
+        (by rw [List.length_drop]; simp only [Spec.Wal.align8] at hcap hfuel ⊢; omega)
         (by rw [mul_succ']; omega)
     · rw [if_neg hcap] at hfit ⊢
       have hf := fillPage_ok (s.startAddr + 8192 * k) rs hrs (hdrSize k + Spec.Wal.align8 carry.length) (by omega)
+        (by simp only [Spec.Wal.align8]; omega)
+      have hcf := fillPage_carry_fuel (s.startAddr + 8192 * k) rs (hdrSize k + Spec.Wal.align8 carry.length) (by omega)
         (by simp only [Spec.Wal.align8]; omega)
       have hplen : (pageHeader s k carry.length ++ pad8 carry ++
           (((fillPage (s.startAddr + 8192 * k) (hdrSize k + Spec.Wal.align8 carry.length) rs).whole.flatMap fun r => pad8 (encRecord r)) ++
@@ -178,14 +366,26 @@ theorem layoutPages_ok (s : Spec.Wal.WalSegment) (hs : SegOK s) (n : Nat) (k : N
       · rw [if_pos hfin] at hfit ⊢
         simp only [] at hfit ⊢
         rw [hplen] at hfit
-        rw [fileRecs_append _ _ 1 (by rw [hplen]), fileRecs_page _ hplen, pageRecs_fill s hs k carry hc hfit _ hf]
+        simp only [Bool.and_eq_true, List.isEmpty_iff] at hfin
+        rw [fileRecs_cons _ _ hplen, pageRecs_fill s hs k carry hc hfit _ hf tail (fun hne => absurd hfin.1 hne)]
       · rw [if_neg hfin] at hfit ⊢
         simp only [] at hfit ⊢
         rw [List.length_append, hplen] at hfit
-        rw [List.append_assoc, fileRecs_append _ _ 1 (by rw [hplen]), fileRecs_page _ hplen,
-          pageRecs_fill s hs k carry hc (by omega) _ hf, List.filterMap_append, List.append_assoc]
+        have hne : (fillPage (s.startAddr + 8192 * k) (hdrSize k + Spec.Wal.align8 carry.length) rs).carry ≠ [] ∨
+            (fillPage (s.startAddr + 8192 * k) (hdrSize k + Spec.Wal.align8 carry.length) rs).rest ≠ [] := by
+          simp only [Bool.and_eq_true, List.isEmpty_iff] at hfin
+          by_cases hc0 : (fillPage (s.startAddr + 8192 * k) (hdrSize k + Spec.Wal.align8 carry.length) rs).carry = []
+          · exact .inr (fun hr => hfin ⟨hc0, hr⟩)
+          · exact .inl hc0
+        have hfu := hcf hne
+        have hcl := hf.carry
+        rw [List.append_assoc, fileRecs_cons _ _ hplen,
+          pageRecs_fill s hs k carry hc (by omega) _ hf _
+            (fun hne' => continuationData_layout s hs n (k + 1) _ _ (by omega) hne' hf.rest (by omega)
+              (by rw [mul_succ']; omega) tail),
+          List.map_append, List.append_assoc]
         congr 1
-        exact ih (k + 1) _ _ (by have := hf.carry; omega) hf.rest (by rw [mul_succ']; omega)
+        exact ih (k + 1) _ _ (by omega) hf.rest (by omega) (by rw [mul_succ']; omega)
 
 theorem pagesPure_zeros (m fuel off : Nat) : pagesPure (zeros m) fuel off = [] := by
   induction fuel generalizing off with
@@ -224,33 +424,24 @@ theorem layoutPages_length (s : Spec.Wal.WalSegment) (n k : Nat) (carry : Bytes)
 def viewOfRecord (r : Record) : Spec.Wal.RecView :=
   ⟨r.lsn, r.totalLen, r.xid, r.prev, r.info, r.rmid, r.crc, r.blocks.map viewOfM⟩
 
-theorem placedM_reported (p : Placed) : (placedM p).map viewOfRecord = p.reported := by
-  cases p with
-  | whole lsn r =>
-    simp only [placedM, Option.map_some, Placed.reported, viewOfRecord, recM, Spec.Wal.recView]
-    rw [viewsM_views]; rfl
-  | cut lsn r => rfl
-  | straddle lsn r => rfl
+theorem placedM_view (p : Placed) : viewOfRecord (placedM p) = p.view := by
+  simp only [placedM, Placed.view, viewOfRecord, recM, Spec.Wal.recView]
+  rw [viewsM_views]; rfl
 
-theorem placedM_names (p : Placed) (r : Record) (h : placedM p = some r) :
-    r.rmName = rmgrName r.rmid ∧ r.operation = operationName r.rmid r.info := by
-  cases p <;> simp only [placedM, Option.some.injEq] at h <;> first | (subst h; exact ⟨rfl, rfl⟩) | cases h
+theorem placedM_names (p : Placed) :
+    (placedM p).rmName = rmgrName (placedM p).rmid ∧ (placedM p).operation = operationName (placedM p).rmid (placedM p).info :=
+  ⟨rfl, rfl⟩
 
-theorem filterMap_map_view (ps : List Placed) :
-    (ps.filterMap placedM).map viewOfRecord = ps.filterMap Placed.reported := by
-  induction ps with
-  | nil => rfl
-  | cons p ps ih =>
-    have := placedM_reported p
-    simp only [List.filterMap_cons]
-    cases hp : placedM p with
-    | none => rw [hp] at this; simp only [Option.map_none] at this; rw [← this]; exact ih
-    | some r => rw [hp] at this; simp only [Option.map_some] at this; rw [← this, List.map_cons, ih]
+theorem map_map_view (ps : List Placed) : (ps.map placedM).map viewOfRecord = ps.map Placed.view := by
+  rw [List.map_map]
+  apply List.map_congr_left
+  intro p _
+  exact placedM_view p
 
 /-- the segment theorem on the model side -/
 theorem segment_records (s : Spec.Wal.WalSegment) (hs : s.WF) (hv : isValidMagic s.magic = true)
     (hfit : s.startAddr + s.layout.bytes.length ≤ 2 ^ 64) :
-    parseWALFile (Spec.Wal.encSegmentOp s) = .ok (some (s.layout.placed.filterMap placedM)) := by
+    parseWALFile (Spec.Wal.encSegmentOp s) = .ok (some (s.layout.placed.map placedM)) := by
   obtain ⟨hm, _, ht, _, _, _, _, _, _, hpre, hrs⟩ := hs
   rw [parseWALFile_eq]
   have hlen := layoutPages_length s (s.streamLen / 8) 0 s.pre s.records hrs
@@ -258,7 +449,8 @@ theorem segment_records (s : Spec.Wal.WalSegment) (hs : s.WF) (hv : isValidMagic
     unfold Spec.Wal.encSegmentOp Spec.Wal.WalSegment.layout
     rw [List.length_append]; omega)]
   unfold Spec.Wal.encSegmentOp
-  have := layoutPages_ok s ⟨hm, hv, ht⟩ (s.streamLen / 8 + 1) 0 s.pre s.records hpre hrs
+  have hsl : s.streamLen = Spec.Wal.align8 s.pre.length + recsLen s.records := rfl
+  have := layoutPages_ok s ⟨hm, hv, ht⟩ (s.streamLen / 8 + 1) 0 s.pre s.records hpre hrs (by omega)
     (by simpa [Spec.Wal.WalSegment.layout] using hfit) (zeros (8192 * s.tailPages))
   rw [fileRecs_zeros, List.append_nil] at this
   unfold Spec.Wal.WalSegment.layout
@@ -266,7 +458,6 @@ theorem segment_records (s : Spec.Wal.WalSegment) (hs : s.WF) (hv : isValidMagic
 
 /-! ## The layout places every record, once and in order -/
 
-def recsLen (rs : List Spec.Wal.WalRecord) : Nat := (rs.map fun r => Spec.Wal.align8 r.totLen).sum
 
 theorem fillPage_conserve (addr : Nat) (rs : List Spec.Wal.WalRecord) (p : Nat) (hp : p ≤ 8192) (hp8 : p % 8 = 0) :
     (fillPage addr p rs).placed.map Placed.record ++ (fillPage addr p rs).rest = rs ∧
